@@ -66,6 +66,26 @@ def run_scenario(sc):
                 a.run(lambda: None)
                 if current_action() is not a: problems.append("re-entry: run() inside own context changed the current action")
             if current_action() is not a: problems.append("re-entry: leaving own context() lost the current action")
+        # re-entering an outer action's context()/run() from inside an inner action
+        for inner_kind in KINDS:
+            with start_action(action_type="A") as A:
+                B = start_action(action_type="B")
+                def inner():
+                    with A.context():
+                        if current_action() is not A: problems.append("A.context() inside B (%s): current action is not A" % inner_kind)
+                        n0 = len(msgs); log_message(message_type="x")
+                        if msgs[n0]["task_level"][:-1] != A._task_level.as_list(): problems.append("message inside re-entered A.context() not attributed to A")
+                    if current_action() is not B: problems.append("leaving re-entered A.context() inside B (%s) did not restore B" % inner_kind)
+                    A.run(lambda: problems.append("A.run inside B: current is not A") if current_action() is not A else None)
+                    if current_action() is not B: problems.append("A.run() inside B (%s) did not restore B" % inner_kind)
+                if inner_kind == "with":
+                    with B: inner()
+                elif inner_kind == "context":
+                    with B.context(): inner()
+                    B.finish()
+                else:
+                    B.run(inner); B.finish()
+                if current_action() is not A: problems.append("after B (%s) current action is not A" % inner_kind)
         if current_action() is not None: problems.append("after everything current_action() is not None")
         # start_task always begins a new tree; context-less message forms its own task
         with start_action(action_type="outer") as o:
